@@ -119,6 +119,9 @@ func Deconstruct(s Square, decoder PFBDecoder) ([][]byte, error) {
 		blobs := make([]*share.Blob, len(wpfb.ShareIndexes))
 		for j, shareIndex := range wpfb.ShareIndexes {
 			end := int(shareIndex) + share.SparseSharesNeeded(blobSizes[j])
+			if int(shareIndex) >= len(s) || end > len(s) {
+				return nil, fmt.Errorf("wrapped PFB %d: blob %d share range [%d, %d) is outside of the square of %d shares", i, j, shareIndex, end, len(s))
+			}
 			parsedBlobs, err := share.ParseBlobs(s[shareIndex:end])
 			if err != nil {
 				return nil, err
